@@ -21,7 +21,7 @@ type Spelling struct {
 }
 
 // BlankTable lists the blank-line spellings (index 0 = no blank line).
-var BlankTable = []string{"", "", " ", "\t", "  \t ", "    ", "\n", " \n\t"}
+var BlankTable = []string{"", "", " ", "\t", "  \t ", "    ", "\n", " \n\t", "\u3000", "\u00a0 \t", "\u0085"}
 
 // Line is one physical line of a spelled document.
 type Line struct {
